@@ -513,6 +513,11 @@ func runProperty(v *Verifier, prop, tier, only string, seed int, verbose bool) *
 		res.nViol++
 		res.lines = append(res.lines, reportViolation(v, prop, o))
 	}
+	if only == "" && prop != "" && os.Getenv("GOVC_NO_SELFTEST") == "" {
+		st, problems := selftestFor(prop, tier, seed)
+		res.selftest = st
+		res.undecided = append(res.undecided, problems...)
+	}
 	if exp, ok := v.db.Expect[prop]; ok && res.nObl < exp && only == "" {
 		res.undecided = append(res.undecided, fmt.Sprintf("vacuity: property %s produced %d obligations, contract files expect at least %d", prop, res.nObl, exp))
 	}
